@@ -227,7 +227,10 @@ func faultFidelityPass(tier string, seed uint64, cov map[string]any) (int, []str
 			planRuns++
 		}
 		// 3. a real SIGINT: invariants on the real directory
-		for k := 0; k < sigPerCase && len(kinds) > 0; k++ {
+		// (not for runs that write to standard output: the handler of the pinned
+		// gxz removes os.Stdout.Name() = "/dev/stdout" - as root that deletes the
+		// host's /dev/stdout, which is how this was noticed; see DESIGN.md §6)
+		for k := 0; k < sigPerCase && len(kinds) > 0 && !j.v.Stdout; k++ {
 			at := pr.Range(1, len(kinds))
 			srr, err := realRun(w0, args, "-s", strconv.Itoa(at))
 			if err != nil {
